@@ -61,7 +61,7 @@ def render_geom(t, parent=None):
 
 
 def num(x):
-    return str(x)
+    return repr(x) if isinstance(x, float) else str(x)
 
 
 def tr_params(tr, spell='12'):
@@ -326,4 +326,51 @@ def lattice_opts(deck):
     for c in deck['cells']:
         if c['lat'] and c.get('latopt'):
             out += ['--lattice', '%d,%s' % (c['n'], ','.join('%d:%d' % (a, b) for a, b in c['lranges']))]
+    return out
+
+
+# ---------------------------------------------------------------------------
+# covariance (DESIGN.md section 5): the whole deck is moved by one rigid motion phi in floating point;
+# the expected owner of phi(p) is the exact owner of p, so TLC keeps working on the un-moved exact deck
+
+def rotation(axis, degrees):
+    import math
+    x, y, z = axis
+    n = math.sqrt(x * x + y * y + z * z)
+    x, y, z = x / n, y / n, z / n
+    c, s = math.cos(math.radians(degrees)), math.sin(math.radians(degrees))
+    C = 1 - c
+    return [[c + x * x * C, x * y * C - z * s, x * z * C + y * s],
+            [y * x * C + z * s, c + y * y * C, y * z * C - x * s],
+            [z * x * C - y * s, z * y * C + x * s, c + z * z * C]]
+
+
+PHIS = [((0.3, -1.2, 0.7), rotation((0, 0, 1), 30.0)),
+        ((-0.4, 0.9, 1.1), rotation((1, 1, 1), 40.0)),
+        ((1.25, 0.0, -0.6), rotation((1, 2, 2), 75.0)),
+        ((0.0, 0.0, 0.0), rotation((-2, 1, 3), 123.0))]
+
+
+def moved_deck(deck, phi, trnum=98):
+    """Copy of `deck` in which every surface card carries TR `trnum` = phi (None if a card already has a TR
+    or a cell uses TRCL / FILL transformations / lattices: those decks are not moved)."""
+    if any(s.get('tr') for s in deck['surfs']):
+        return None
+    if any(c['hastrcl'] or c['hasftr'] or c['lat'] for c in deck['cells']):
+        return None
+    o, R = phi
+    m = [R[r][c] for c in range(3) for r in range(3)]       # rows of the TR matrix = images of the auxiliary axes
+    d = dict(deck)
+    d['surfs'] = [dict(s, tr=trnum) for s in deck['surfs']]
+    d['trs'] = list(deck.get('trs', [])) + [{'n': trnum, 'o': list(o), 'm': m, 'spell': '12'}]
+    return d
+
+
+def moved_points(pts2, phi):
+    """Main-frame (float, NOT doubled) images of the doubled auxiliary probe points."""
+    o, R = phi
+    out = []
+    for P in pts2:
+        u = [P[0] / 2.0, P[1] / 2.0, P[2] / 2.0]
+        out.append(tuple(o[r] + sum(R[r][c] * u[c] for c in range(3)) for r in range(3)))
     return out
